@@ -14,6 +14,8 @@ mod tok;
 
 use std::io::Write;
 
+static LAST_PANIC: std::sync::Mutex<String> = std::sync::Mutex::new(String::new());
+
 fn usage() -> ! {
     eprintln!("usage: nverif gen <PROP> <quick|thorough> <seed> <outdir>");
     std::process::exit(2)
@@ -21,7 +23,11 @@ fn usage() -> ! {
 
 fn main() {
     // the implementation panics on purpose in many cases; keep stderr quiet
-    std::panic::set_hook(Box::new(|_| {}));
+    std::panic::set_hook(Box::new(|info| {
+        if let Ok(mut m) = LAST_PANIC.lock() {
+            *m = info.to_string();
+        }
+    }));
     let args: Vec<String> = std::env::args().collect();
     if args.len() < 2 {
         usage();
@@ -39,25 +45,25 @@ fn main() {
             let mut rng = rng::Rng::new(seed ^ (prop.bytes().fold(0u64, |a, b| a * 131 + b as u64)));
             let release = !cfg!(debug_assertions);
             let mut frng = rng::Rng::new(seed.wrapping_add(0x5EED) ^ (prop.bytes().fold(0u64, |a, b| a * 131 + b as u64)));
-            let (cases, fals) = match prop {
-                "C14" => (gen_tensor::gen_c14(&mut rng, thorough), fals::Fals::new()),
-                "C15" => (gen_tensor::gen_c15(&mut rng, thorough), fals::Fals::new()),
-                "C18" => (gen_basic::gen_c18(&mut rng, thorough, release), gen_basic::fals_c18(&mut frng, thorough, release)),
-                "C07" => (gen_basic::gen_c07(&mut rng, thorough), gen_basic::fals_c07(&mut frng, thorough)),
-                "C06" => (gen_basic::gen_c06(&mut rng, thorough), gen_basic::fals_c06(&mut frng, thorough)),
-                "C03" => ({ let mut v = gen_basic::gen_c03(&mut rng, thorough); v.extend(gen_net2::gen_c03_net(&mut rng, thorough)); v }, gen_basic::fals_c03(&mut frng, thorough)),
-                "C02" => (gen_net::gen_c02(&mut rng, thorough), fals_b::fals_c02(&mut frng, thorough)),
-                "C08" => (gen_net::gen_c08(&mut rng, thorough), fals_b::fals_c08(&mut frng, thorough)),
-                "C01" => ({ let mut v = gen_net::gen_c01(&mut rng, thorough); for f in [0usize, 1, 3, 4] { v.extend(gen_net2::gen_scripts(&mut rng, thorough, f, "c01")); } v }, fals_a::fals_c01(&mut frng, thorough)),
-                "C11" => (gen_net2::gen_c11(&mut rng, thorough), fals_b::fals_c11(&mut frng, thorough)),
-                "C10" => ({ let mut v = gen_net2::gen_c10(&mut rng, thorough); v.extend(gen_net2::gen_scripts(&mut rng, thorough, 1, "c10")); v }, fals_c::fals_c10(&mut frng, thorough)),
-                "C16" => (gen_net2::gen_c16(&mut rng, thorough), fals_a::fals_c16(&mut frng, thorough)),
-                "C17" => (gen_net2::gen_c17(&mut rng, thorough), fals_b::fals_c17(&mut frng, thorough)),
-                "C04" => ({ let mut v = gen_net2::gen_c04(&mut rng, thorough); for f in [0usize, 1, 3] { v.extend(gen_net2::gen_scripts(&mut rng, thorough, f, "c04")); } v }, fals_c::fals_c04(&mut frng, thorough)),
-                "C13" => ({ let mut v = gen_net2::gen_c13(&mut rng, thorough); v.extend(gen_net2::gen_scripts(&mut rng, thorough, 2, "c13")); v }, fals_c::fals_c13(&mut frng, thorough)),
-                "C09" => ({ let mut v = gen_net2::gen_c09(&mut rng, thorough); v.extend(gen_net2::gen_c09_blocks(&mut rng, thorough)); for f in [0usize, 1] { v.extend(gen_net2::gen_scripts(&mut rng, thorough, f, "c09")); } v }, fals_c::fals_c09(&mut frng, thorough)),
-                "C12" => ({ let mut v = gen_net2::gen_c12(&mut rng, thorough); for f in [0usize, 4] { v.extend(gen_net2::gen_scripts(&mut rng, thorough, f, "c12")); } v }, fals_c::fals_c12(&mut frng, thorough)),
-                "C05" => (gen_net2::gen_c05(&mut rng, thorough), gen_net2::fals_c05(&mut frng, thorough)),
+            let cases = match prop {
+                "C14" => gen_tensor::gen_c14(&mut rng, thorough),
+                "C15" => gen_tensor::gen_c15(&mut rng, thorough),
+                "C18" => gen_basic::gen_c18(&mut rng, thorough, release),
+                "C07" => gen_basic::gen_c07(&mut rng, thorough),
+                "C06" => gen_basic::gen_c06(&mut rng, thorough),
+                "C03" => { let mut v = gen_basic::gen_c03(&mut rng, thorough); v.extend(gen_net2::gen_c03_net(&mut rng, thorough)); v },
+                "C02" => gen_net::gen_c02(&mut rng, thorough),
+                "C08" => gen_net::gen_c08(&mut rng, thorough),
+                "C01" => { let mut v = gen_net::gen_c01(&mut rng, thorough); for f in [0usize, 1, 3, 4] { v.extend(gen_net2::gen_scripts(&mut rng, thorough, f, "c01")); } v },
+                "C11" => gen_net2::gen_c11(&mut rng, thorough),
+                "C10" => { let mut v = gen_net2::gen_c10(&mut rng, thorough); v.extend(gen_net2::gen_scripts(&mut rng, thorough, 1, "c10")); v },
+                "C16" => gen_net2::gen_c16(&mut rng, thorough),
+                "C17" => gen_net2::gen_c17(&mut rng, thorough),
+                "C04" => { let mut v = gen_net2::gen_c04(&mut rng, thorough); for f in [0usize, 1, 3] { v.extend(gen_net2::gen_scripts(&mut rng, thorough, f, "c04")); } v },
+                "C13" => { let mut v = gen_net2::gen_c13(&mut rng, thorough); v.extend(gen_net2::gen_scripts(&mut rng, thorough, 2, "c13")); v },
+                "C09" => { let mut v = gen_net2::gen_c09(&mut rng, thorough); v.extend(gen_net2::gen_c09_blocks(&mut rng, thorough)); for f in [0usize, 1] { v.extend(gen_net2::gen_scripts(&mut rng, thorough, f, "c09")); } v },
+                "C12" => { let mut v = gen_net2::gen_c12(&mut rng, thorough); for f in [0usize, 4] { v.extend(gen_net2::gen_scripts(&mut rng, thorough, f, "c12")); } v },
+                "C05" => gen_net2::gen_c05(&mut rng, thorough),
                 _ => {
                     eprintln!("no generator for {}", prop);
                     std::process::exit(2)
@@ -101,7 +107,6 @@ fn main() {
                 }
                 _ => cases,
             };
-            fals.write(&outdir.join("falsify.jsonl"));
             let mut fc = std::io::BufWriter::new(std::fs::File::create(outdir.join("cases.txt")).unwrap());
             let mut fi = std::io::BufWriter::new(std::fs::File::create(outdir.join("impl.txt")).unwrap());
             for (i, (tag, c)) in cases.iter().enumerate() {
@@ -113,6 +118,37 @@ fn main() {
                 writeln!(fi, "{}", tok::line(&id, &c.run())).unwrap();
                 fi.flush().unwrap();
             }
+            // the falsifiers run AFTER the tie cases are on disk; a falsifier that does not guard a library call
+            // itself must not take the run down: a panic that escapes it is recorded as a failed check of the class
+            // "falsifier/escaped-panic" with the panic message (the library panicked where the falsifier expected a value)
+            let fals = std::panic::catch_unwind(std::panic::AssertUnwindSafe(|| match prop {
+                "C14" => fals::Fals::new(),
+                "C15" => fals::Fals::new(),
+                "C18" => gen_basic::fals_c18(&mut frng, thorough, release),
+                "C07" => gen_basic::fals_c07(&mut frng, thorough),
+                "C06" => gen_basic::fals_c06(&mut frng, thorough),
+                "C03" => gen_basic::fals_c03(&mut frng, thorough),
+                "C02" => fals_b::fals_c02(&mut frng, thorough),
+                "C08" => fals_b::fals_c08(&mut frng, thorough),
+                "C01" => fals_a::fals_c01(&mut frng, thorough),
+                "C11" => fals_b::fals_c11(&mut frng, thorough),
+                "C10" => fals_c::fals_c10(&mut frng, thorough),
+                "C16" => fals_a::fals_c16(&mut frng, thorough),
+                "C17" => fals_b::fals_c17(&mut frng, thorough),
+                "C04" => fals_c::fals_c04(&mut frng, thorough),
+                "C13" => fals_c::fals_c13(&mut frng, thorough),
+                "C09" => fals_c::fals_c09(&mut frng, thorough),
+                "C12" => fals_c::fals_c12(&mut frng, thorough),
+                "C05" => gen_net2::fals_c05(&mut frng, thorough),
+                _ => fals::Fals::new(),
+            }))
+            .unwrap_or_else(|_| {
+                let mut f = fals::Fals::new();
+                let msg = LAST_PANIC.lock().map(|m| m.clone()).unwrap_or_default();
+                f.check("falsifier/escaped-panic", false, "the library panicked on an input for which the falsifier expected a value", || msg);
+                f
+            });
+            fals.write(&outdir.join("falsify.jsonl"));
             println!("{} cases", cases.len());
         }
         _ => usage(),
